@@ -397,15 +397,20 @@ pub fn clamp(k: &[u8; 32]) -> [u8; 32] {
 /// RFC 7748 §5 X25519(k, u): Montgomery ladder on big integers. Clamps k, masks bit 255 of u,
 /// accepts non-canonical u (reduced mod p).
 pub fn x25519(k: &[u8; 32], u: &[u8; 32]) -> [u8; 32] {
-    let p = fp();
     let kk = BigUint::from_bytes_le(&clamp(k));
+    mont_ladder(&kk, u, 255)
+}
+
+/// The RFC 7748 ladder for an arbitrary (unclamped) scalar of at most `bits` bits.
+pub fn mont_ladder(kk: &BigUint, u: &[u8; 32], bits: u64) -> [u8; 32] {
+    let p = fp();
     let mut ub = *u;
     ub[31] &= 127;
     let x1 = BigUint::from_bytes_le(&ub) % &p;
     let a24 = BigUint::from(121665u32);
     let (mut x2, mut z2, mut x3, mut z3) = (BigUint::one(), BigUint::zero(), x1.clone(), BigUint::one());
     let mut swap = false;
-    for t in (0..255).rev() {
+    for t in (0..bits).rev() {
         let kt = kk.bit(t);
         if swap ^ kt {
             std::mem::swap(&mut x2, &mut x3);
@@ -433,6 +438,19 @@ pub fn x25519(k: &[u8; 32], u: &[u8; 32]) -> [u8; 32] {
         std::mem::swap(&mut z2, &mut z3);
     }
     to32(&((x2 * finv(&z2, &p)) % &p))
+}
+
+/// Is the point with this u-coordinate in the prime-order subgroup of the curve (not the twist,
+/// no torsion component)? Used only to classify generated cases.
+pub fn mont_in_prime_subgroup(u: &[u8; 32]) -> bool {
+    let p = fp();
+    let mut ub = *u;
+    ub[31] &= 127;
+    let x = BigUint::from_bytes_le(&ub) % &p;
+    if x.is_zero() || !mont_on_curve(u) {
+        return false;
+    }
+    mont_ladder(&ed_l(), u, 253) == [0u8; 32]
 }
 
 /// Classify a Montgomery u-coordinate: is it on the curve (vs the twist)?
